@@ -66,7 +66,8 @@ func echoInputScope() *schema.ScopeSchema {
 		"n":       prop(schema.NewIntSchema(schema.IntPointer(-1000000), schema.IntPointer(1000000), nil), false),
 		"payload": prop(schema.NewAnySchema(), false),
 		"mode": propDefault(schema.NewStringEnumSchema(map[string]*schema.DisplayValue{
-			"ok": dv("OK"), "err": dv("Error output"), "undeclared": dv("Undeclared output"), "badout": dv("Bad output"), "panic": dv("Panic"), "gated": dv("Gated")}), `"ok"`),
+			"ok": dv("OK"), "err": dv("Error output"), "undeclared": dv("Undeclared output"), "badout": dv("Bad output"), "panic": dv("Panic"), "gated": dv("Gated"),
+			"badpanic": dv("Panic with a value that is not valid UTF-8"), "badundeclared": dv("Undeclared output ID that is not valid UTF-8")}), `"ok"`),
 		"tags": prop(schema.NewListSchema(schema.NewStringSchema(nil, schema.IntPointer(16), nil), nil, schema.IntPointer(8)), false),
 	}))
 }
@@ -104,6 +105,10 @@ func (f *Fixture) echoBehaviour(step string, dataID int64, in map[string]any) (s
 		return "success", map[string]any{"nonce": int64(5), "bogus": true}
 	case "panic":
 		panic("step handler panics for " + nonce)
+	case "badpanic":
+		panic("step handler panics with bytes that are not text: \xff\xfe\xc3( for " + nonce)
+	case "badundeclared":
+		return "nope-\xff\xc3(", map[string]any{"nonce": nonce}
 	case "gated":
 		f.Gate.Wait(nonce)
 	}
